@@ -274,6 +274,14 @@ def eig_gap(C):
     return float(min(w[1] - w[0], w[2] - w[1]) / sc)
 
 
+def eig_spread(C):
+    """Relative spread of the spectrum (0 = spherical tensor)."""
+    if not onp.all(onp.isfinite(C)):
+        return 1.0
+    w = onp.linalg.eigvalsh(np_sym(C))
+    return float((w[2] - w[0]) / max(abs(w[0]), abs(w[2]), 1e-300))
+
+
 def np_mises(T):
     d = np_dev(np_sym(T))
     return math.sqrt(1.5 * float(onp.tensordot(d, d)))
@@ -556,6 +564,7 @@ class Point:
         self.eq = []                      # (event index, field, float) for dense ranking at the end
         self.nan_events = []
         self.deg_events = []
+        self.sph_events = []
         self.flat_events = []
         self.gap = 1.0
         self.flat = False
@@ -942,6 +951,9 @@ class Point:
             de = onp.asarray(r["de"], dtype=float)
             pos = de > 0
             same = pos.all(axis=2) | (~pos).all(axis=2)
+            # a stencil is on one side of the yield switch only if every FINER stencil along the same line is on that side
+            # too (all seven sample points of a coarse stencil can be plastic while the points next to its centre are not)
+            same = onp.flip(onp.logical_and.accumulate(onp.flip(same, axis=1), axis=1), axis=1)
             self.stats["deriv_dirs_skipped_straddle"] += int((ok & ~same).all(axis=1).sum())
             ok &= same
             plastic_here = bool(pos[:, :, 3].all())
@@ -949,7 +961,10 @@ class Point:
         D1 = (Wst * c1).sum(axis=2) / hs[None, :]
         D2 = (Wst * c2).sum(axis=2) / (hs * hs)[None, :]
         eps = 2.0 ** -52
-        wabs = Kref * (1.0 if self.m["finiteDef"] else (np_norm(H) + 3 * hs) ** 2)
+        # magnitude of the terms that cancel inside one energy evaluation: modulus x (1 + |H|^2) in finite deformation
+        # (O(1) invariants), modulus x |H|^2 for the small-strain models, never less than the energy itself
+        hn = np_norm(H) + 3 * hs
+        wabs = onp.maximum(Kref * ((1.0 + hn ** 2) if self.m["finiteDef"] else hn ** 2), float(onp.abs(Wst[onp.isfinite(Wst)]).max()) if onp.isfinite(Wst).any() else 0.0)
         R1 = D["round"] * eps * wabs / hs
         R2 = 4 * D["round"] * eps * wabs / (hs * hs)
         codes = {}
@@ -1021,6 +1036,7 @@ class Point:
         tensors the model decomposes in this step (two nearly equal principal stretches <=> small gap)."""
         F = self.F
         g = eig_gap(F.T @ F)
+        spread = [eig_spread(F.T @ F)]
         with onp.errstate(all="ignore"):
             try:
                 if self.kind == "plastic" and self.m["kin"] == "large":
@@ -1028,16 +1044,20 @@ class Point:
                         if st is not None and onp.all(onp.isfinite(st)):
                             Fe = F @ np_inv(st[1:10].reshape(3, 3))
                             g = min(g, eig_gap(Fe.T @ Fe))
+                            spread.append(eig_spread(Fe.T @ Fe))
                 elif self.kind == "plastic":
                     for st in (self.sc, self.sp):
                         if st is not None and onp.all(onp.isfinite(st)):
                             g = min(g, eig_gap(np_dev(j2_elastic_strain(self.m["kin"], F, st)) + I3))
+                            spread.append(eig_spread(np_dev(j2_elastic_strain(self.m["kin"], F, st)) + I3))
                 elif self.kind == "viscous":
                     for Fv in visco_branches(self.sc, self.m["nBranches"]):
                         Fe = F @ np_inv(Fv)
                         g = min(g, eig_gap(Fe.T @ Fe))
+                        spread.append(eig_spread(Fe.T @ Fe))
             except Exception:
                 pass
+        self.spherical = bool(max(spread) < 1e-12)     # every tensor the model decomposes is spherical (three equal stretches)
         return g
 
     def _rotate_state(self, s, Q):
@@ -1064,6 +1084,8 @@ def run_trace(runner, variant, mode, ops, seed, tid, solver_tol):
                 pt.nan_events.append(len(evs) + 1)
             if pt.gap < 1e-5:
                 pt.deg_events.append(len(evs) + 1)
+            if getattr(pt, "spherical", False):
+                pt.sph_events.append(len(evs) + 1)
             if pt.flat:
                 pt.flat_events.append(len(evs) + 1)
             evs.append(dict(a=op["a"], c=op.get("c", ""), dt=op.get("dt", ""), o=o))
@@ -1074,7 +1096,7 @@ def run_trace(runner, variant, mode, ops, seed, tid, solver_tol):
         evs[i]["o"][fld] = rank.get(v, 0)
     tr = dict(id=tid, model=model_abs(variant), mode=mode, ev=evs)
     h = pt.meta.get("hard", {})
-    facts = dict(nan_events=pt.nan_events, deg_events=pt.deg_events, flat_events=pt.flat_events, perfect_plasticity=bool(h.get("model") == "linear" and h.get("H") == 0.0),
+    facts = dict(nan_events=pt.nan_events, deg_events=pt.deg_events, sph_events=pt.sph_events, flat_events=pt.flat_events, perfect_plasticity=bool(h.get("model") == "linear" and h.get("H") == 0.0),
                  rate_sensitive=bool(h.get("rate", False)))
     return tr, pt.stats, facts
 
@@ -1244,7 +1266,8 @@ def validate(traces, rep, pid, cases, facts=None):
         first[tid] = min(first.get(tid, l), l)
     later = 0
     for tid, l, clause in fails:
-        if l > first[tid]:            # the state of this point is already contaminated by the first failure
+        # the state of a point is contaminated by its first failure -- except for C10, whose clauses only observe
+        if l > first[tid] and pid != "C10":
             later += 1
             continue
         c = dict(cases[tid])
@@ -1256,6 +1279,7 @@ def validate(traces, rep, pid, cases, facts=None):
         c["perfect_plasticity"] = bool(f.get("perfect_plasticity", False))
         c["flat_hardening"] = bool(l in f.get("flat_events", []))
         c["rate_sensitive"] = bool(f.get("rate_sensitive", False))
+        c["all_stretches_equal"] = bool(l in f.get("sph_events", []))
         rep.fail(clause, c)
     if later:
         rep.coverage["failures_after_the_first_failing_event_of_a_trace_not_reported"] = later
